@@ -644,6 +644,75 @@ pub fn regex_text(g: &Grammar, r: &Regex) -> String {
     lexes.join(" ")
 }
 
+/// `&` (return) operators that can be reached before their rule has consumed a token. If the
+/// parser enters such a rule in the active-error state from a repetition, the rule returns at
+/// once without consuming and the repetition calls it again: the parser spins (known finding of
+/// C03). Returns a description per occurrence.
+pub fn leading_returns(g: &Grammar) -> Vec<String> {
+    fn nul(r: &Regex, nr: &[bool]) -> bool {
+        match r {
+            Regex::Tok(..) => false,
+            Regex::Ref(x) => nr[*x],
+            Regex::Concat(v) => v.iter().all(|c| nul(c, nr)),
+            Regex::Alt(v) | Regex::Choice(v) => v.iter().any(|c| nul(c, nr)),
+            Regex::Opt(_) | Regex::Star(_) => true,
+            Regex::Plus(b) => nul(b, nr),
+            Regex::Paren(Some(b)) => nul(b, nr),
+            _ => true,
+        }
+    }
+    let mut nr: Vec<bool> = g.rules.iter().map(|r| r.body.is_none()).collect();
+    loop {
+        let mut changed = false;
+        for (i, r) in g.rules.iter().enumerate() {
+            if let Some(b) = &r.body {
+                if !nr[i] && nul(b, &nr) {
+                    nr[i] = true;
+                    changed = true;
+                }
+            }
+        }
+        if !changed {
+            break;
+        }
+    }
+    /// `pre`: a token has definitely been consumed by this rule application before `r`;
+    /// returns the same fact for the position behind `r`
+    fn walk(r: &Regex, pre: bool, nr: &[bool], rule: &str, out: &mut Vec<String>) -> bool {
+        match r {
+            Regex::Tok(..) => true,
+            Regex::Ref(x) => pre || !nr[*x],
+            Regex::Concat(v) => v.iter().fold(pre, |p, c| walk(c, p, nr, rule, out)),
+            Regex::Alt(v) | Regex::Choice(v) => {
+                let mut all = true;
+                for c in v {
+                    all &= walk(c, pre, nr, rule, out);
+                }
+                all
+            }
+            Regex::Opt(b) | Regex::Star(b) => {
+                walk(b, pre, nr, rule, out);
+                pre
+            }
+            Regex::Plus(b) | Regex::Paren(Some(b)) => walk(b, pre, nr, rule, out),
+            Regex::Return => {
+                if !pre {
+                    out.push(format!("`&` in rule {rule} can be reached before the rule consumed a token"));
+                }
+                pre
+            }
+            _ => pre,
+        }
+    }
+    let mut out = vec![];
+    for r in &g.rules {
+        if let Some(b) = &r.body {
+            walk(b, false, &nr, &r.name, &mut out);
+        }
+    }
+    out
+}
+
 /// Shapes in which a node creation reaches across another open marker or out of an undoable
 /// ordered-choice attempt (lelwel's static checks accept them; the tree builder's insertion
 /// invalidates positions recorded earlier). Returns a description per occurrence.
